@@ -484,6 +484,7 @@ type idxAnalyzer struct {
 	progress map[ast.Node]*progSite
 	delta    map[*types.Func]map[string]fieldDelta
 	exitHook func(z *zone, rs *ast.ReturnStmt)
+	muted    bool
 }
 
 // fieldDelta: how much a method advances a cursor field of its receiver, at least.
@@ -887,6 +888,9 @@ func (z *zone) dump() string {
 var idxDebug = os.Getenv("IDXDEBUG")
 
 func (a *idxAnalyzer) record(pos token.Pos, kind, expr string, ok bool, msg string) {
+	if a.muted {
+		return // literals of package-level tables are summarised, their own sites are not obligations
+	}
 	for i := range a.sites {
 		if a.sites[i].pos == pos && a.sites[i].kind == kind {
 			if !ok && a.sites[i].ok {
